@@ -700,10 +700,14 @@ impl AST {
                     ops.push(Op::Render, pos);
                 }
             }
-            TemplatePart::Expression(expr) => {
+            TemplatePart::Expression(mut expr) => {
                 if place_holder {
                     unreachable!();
                 } else {
+                    // This expression was parsed out of the template just now,
+                    // after the statements had their import and include paths
+                    // made relative to the file: do the same for it.
+                    Rewriter::new(root).walk_expression(&mut expr);
                     Self::translate_expr(expr, ops, root);
                     ops.push(Op::Render, pos);
                 }
